@@ -366,6 +366,37 @@ class BytesAlg:
                 out.append(self.bt(it, piece))
                 pos += n
             return ("list", out)
+        def unpack(it, recv, a, k, env, d, e):
+            # struct.unpack of a format made of byte-string fields only ("16s32s32s", pad bytes allowed): the pieces of the
+            # byte string, in order - it must be consumed exactly
+            if not recv[1].split(".")[-1].startswith("struct") or len(a) != 2 or self.kind(a[1]) not in ("bytes", "bytearray"):
+                return None
+            f = it.concrete(a[0]) if a[0][0] == "atom" else a[0]
+            if f[0] != "c" or not isinstance(f[1], (str, bytes)):
+                return None
+            ftext = f[1].decode("latin-1") if isinstance(f[1], bytes) else f[1]
+            import re as _re
+            body = ftext.lstrip("@=<>!")
+            items = _re.findall(r"(\d*)([sx])", body)
+            if "".join(n + c for n, c in items) != body.replace(" ", ""):
+                return None
+            atoms = self.meta[a[1][1].id]["atoms"]
+            total = self.total(atoms)
+            need = sum(int(n or 1) for n, _c in items)
+            if total is not None and total != need:
+                raise _exc("struct.error", "unpack requires a buffer of %d bytes" % need)
+            out, pos = [], 0
+            for n, c in items:
+                n = int(n or 1)
+                if c == "s":
+                    piece = self.cut(atoms, pos, pos + n)
+                    if piece is None:
+                        return None
+                    out.append(self.bt(it, piece))
+                pos += n
+            return ("list", out, False, "tuple")
+        unpack.soft = True          # constants are still folded by the interpreter
+
         def hasher(name):
             def h(it, recv, a, k, env, d, e):
                 if not recv[1].split(".")[-1].split(" ")[-1].startswith("hashlib"):
@@ -420,7 +451,7 @@ class BytesAlg:
             if xa is not None:
                 return self._new(it, "bytearray", atoms=self.normalise(xa))
             return None
-        hk = {"builtin:bytearray": bytearray_, "extcall": extcall, "ext:*.PKCS7": pkcs7, "ext:*.new": hmac_new, "ext:*.compare_digest": compare_digest, "ext:*.split": split,
+        hk = {"builtin:bytearray": bytearray_, "extcall": extcall, "ext:*.PKCS7": pkcs7, "ext:*.new": hmac_new, "ext:*.compare_digest": compare_digest, "ext:*.split": split, "ext:*.unpack": unpack,
               "ext:*.b64encode": b64(True), "ext:*.b64decode": b64(False), "ext:*.standard_b64encode": b64(True), "ext:*.standard_b64decode": b64(False)}
         for n in DIGEST_LEN:
             hk["ext:*." + n] = hasher(n)
